@@ -15,6 +15,7 @@ structures) and an injected allocation failure at an arbitrary tick.
 import copy
 import json
 import os
+import pickle
 import random
 import sys
 import threading
@@ -352,6 +353,16 @@ class C18(Engine):
         result.stats['preempt-sweeps'] += 1
         team = sched.Team(2)
         count = 0
+        # What is built lazily at first use is built once per compiled
+        # object: about a hundred of the schedules of a sweep start from a
+        # pristine copy of the specification (as the compile cache would
+        # hand it out), the others share one object.
+        try:
+            blob = pickle.dumps(shared)
+        except Exception:
+            blob = None
+
+        fresh_every = max(1, sum(alone_ticks) // 100)
 
         for leader in (0, 1):
             follower = 1 - leader
@@ -371,8 +382,14 @@ class C18(Engine):
                                                 'runs': runs}, limit)
                 outcomes = {}
 
+                target = shared
+
+                if blob is not None and count % fresh_every == 0:
+                    target = pickle.loads(blob)
+                    result.stats['preempt-schedules-on-pristine-copy'] += 1
+
                 def body(tid):
-                    fn, _ = self.make_call(shared, ops[tid], datas[tid])
+                    fn, _ = self.make_call(target, ops[tid], datas[tid])
 
                     try:
                         outcomes[tid] = ['ok', fn()]
